@@ -192,7 +192,11 @@ func commit(
 	if !ref.HeadPattern.MatchString(branchName) {
 		return nil, fmt.Errorf("invalid branch name, must consist of only alphanumeric letters, hyphen and underscore")
 	}
-	parent, _ := ref.GetHead(rs, branchName)
+	parent, err := ref.GetHead(rs, branchName)
+	if err != nil && !errors.Is(err, ref.ErrKeyNotFound) {
+		// the branch may exist: a commit without parent would drop its history
+		return nil, fmt.Errorf("error reading branch %q: %w", branchName, err)
+	}
 
 	var f io.ReadCloser
 	if csvFilePath == "-" {
@@ -309,7 +313,10 @@ func ensureTempCommit(
 }
 
 func commitWithTable(cmd *cobra.Command, c *conf.Config, db objects.Store, rs ref.Store, branch string, tableSum []byte, message string, tid *uuid.UUID) ([]byte, error) {
-	parent, _ := ref.GetHead(rs, branch)
+	parent, err := ref.GetHead(rs, branch)
+	if err != nil && !errors.Is(err, ref.ErrKeyNotFound) {
+		return nil, fmt.Errorf("error reading branch %q: %w", branch, err)
+	}
 	commit := &objects.Commit{
 		Table:       tableSum,
 		Message:     message,
@@ -321,7 +328,7 @@ func commitWithTable(cmd *cobra.Command, c *conf.Config, db objects.Store, rs re
 		commit.Parents = [][]byte{parent}
 	}
 	buf := bytes.NewBuffer(nil)
-	_, err := commit.WriteTo(buf)
+	_, err = commit.WriteTo(buf)
 	if err != nil {
 		return nil, err
 	}
